@@ -203,7 +203,7 @@ func C11(c *ev.Ctx) {
 	c.Set("design_model", "FileDisk.tla: BS=4, N<=3, prior lengths {absent,0,1,2,3,4,5,8,9,12,13} model bytes, <=5 operations, <=1 injected failure; invariants SizeExact ReadPromised NoSilentFailure; the configuration with the original size comparison (bytes vs blocks) violates SizeExact")
 
 	// behaviours from the specification
-	nb := c.Pick(260, 2500)
+	nb := c.Pick(260, 5000)
 	cfg := fmt.Sprintf("CONSTANTS\n BS = 4\n MaxN = 3\n Val = {0, 1, 2, 3}\n OpenCmp = \"bytes\"\n PriorLens = {99, 0, 1, 2, 3, 4, 5, 8, 9, 12, 13}\n MaxOps = 7\n MaxFaults = 1\n D = 7\nINIT Init\nNEXT Next\nINVARIANTS EmitHist\nCHECK_DEADLOCK FALSE\n")
 	_ = os.WriteFile(filepath.Join(dir, "SimFileDisk.cfg"), []byte(cfg), 0644)
 	sr := tlc.Run{Dir: dir, Module: "FileDisk", Cfg: "SimFileDisk.cfg", Workers: 1, Timeout: 10 * time.Minute,
